@@ -163,9 +163,11 @@ def mpVarOfStacked (dim : Nat) (st : List K) (flag : Bool) : Option (List K) :=
 
 /-- the parametrisation flag used by `generate_from_var(var, on_para_eq_constraint=requested)` on a template object -/
 def resolveFlag (template : Bool) (requested : Option Bool) : Bool :=
-  match requested with
-  | none => template
-  | some b => b
+  QGen.C03.generate_from_var_flag template requested
+
+/-- the same for `MProcess.generate_from_var` (its own override) -/
+def resolveFlagMp (template : Bool) (requested : Option Bool) : Bool :=
+  QGen.C03.generate_from_var_flag_mprocess template requested
 
 /-! ## gradients: `gradient[index] = 1` on zeros (IndexError when out of range; the variable index is ≥ 0) -/
 
@@ -319,10 +321,10 @@ def handle (args : List String) : Option String :=
       | "gate" => some s!"{num_variables_qpt dim f}"
       | "mprocess" => some s!"{num_variables_qmpt dim m f}"
       | _ => none
-  | ["gen_flag", t, r] => do
+  | ["gen_flag", ty, t, r] => do
       let t ← parseBool? t
       let r ← if r = "n" then some none else (parseBool? r).map some
-      some (if resolveFlag t r then "1" else "0")
+      some (if (if ty = "mprocess" then resolveFlagMp t r else resolveFlag t r) then "1" else "0")
   -- state
   | ["s_v2o", f, s, var] => do
       let f ← parseBool? f; let s ← parseRat? s; let var ← parseList? parseRat? var
